@@ -316,7 +316,7 @@ MODEL_KINDS = {'page': 'page', 'redirect': 'redirect', 'notfound': 'notfound', '
 def strict_eligible(scn):
     o = scn['opts']
     if scn['start'] != [1] or o['spanhosts'] or not o['strong'] or not o['recursive'] or o['pagereq'] or o['auth'] \
-            or o.get('sitemaps'):
+            or o.get('sitemaps') or o.get('noparent') or o.get('tags'):
         return False
     hs = cs.hosts_of(scn)
     if len(hs) > 2 or hs[0] != 'a.test' or cs.origins_of(scn) != hs or len(scn['urls']) > 8:
@@ -403,7 +403,14 @@ def signature(scn, clause, hdr, v, o):
             else:
                 sig['cause'] = 'crash-other'
         elif scn['opts']['level'] and scn['N'] > 1:
-            sig['cause'] = 'level-race'
+            # the recorded level race: the URL that is missed was never recorded, because the page linking to it was
+            # recorded deeper than its shortest depth.  A URL that WAS recorded and then skipped without a request is
+            # something else.
+            requested = set(e['u'] for e in ev if e['e'] == 'req')
+            rows = o.get('rows') or []
+            skipped_unrequested = [r for r in rows if r[1] == 'skipped' and r[0] not in requested and 1 <= r[0] <= len(scn['urls'])
+                                   and not scn['urls'][r[0] - 1].get('rejected') and not scn['urls'][r[0] - 1].get('disallowed')]
+            sig['cause'] = 'recorded-then-skipped-unrequested' if skipped_unrequested else 'level-race'
         else:
             sig['cause'] = 'other'
     elif clause in ('DisallowedRequested', 'PageBeforeRobots'):
